@@ -233,6 +233,8 @@ func bindOpsFull() []Action {
 		actRefund("a", "P1", "O1"),
 		// a lower price together with a top-up the owner cannot pay: refused at the transfer, after the pricing was parsed
 		actUpdate("a", "P1", "O1", 1000, "p1", 0),
+		// a "top-up" of a negative amount (refused by stateless validation)
+		actUpdateCoins("a", "P1", "O1", negCoins(5)), actEnableCoins("a", "P1", "O1", negCoins(5)),
 	}
 }
 
@@ -355,6 +357,8 @@ func bindOpsNames() []Action {
 		actDisable("a", "P1", "O1"), actEnable("a", "P1", "O1", 0),
 		// pricing texts the schema refuses, with and without a deposit
 		actUpdate("a", "P1", "O1", 0, "p1x", 0), actUpdate("a", "P1", "O1", 5, "p1x", 0), actUpdate("a", "P1", "O1", 0, "p1d", 0),
+		// options that are not JSON, together with a valid pricing / alone (refused by stateless validation)
+		actUpdateOpts("a", "P1", "O1", "p2", "not json"), actUpdateOpts("ab", "P1", "O1", "p1", "{"),
 		// a provider address with zero bytes (the separator of string keys)
 		actBind("a", "P0", "O1", 10, "p1", 1), actBind("ab", "P0", "O1", 10, "p2", 1),
 	}
